@@ -2,7 +2,7 @@
 # verify_seed.sh <PROP> <m-dir> <name>  : confirm a seeded change in a scratch worktree and store it under /verif/seeded/<name>/
 # Checks: demo passes on clean tree; patch applies; builds; demo fails with patch; full suite passes with patch (demo removed).
 set -u
-PROP=$1; SRC=$2; NAME=$3
+PROP=$1; SRC=$(realpath $2); NAME=$3
 export GOFLAGS=-mod=mod GOPROXY=off GOSUMDB=off GOTOOLCHAIN=local
 WT=/tmp/vseed_$$_$(echo $NAME | tr -c "A-Za-z0-9\n" "_")
 git -C /repo worktree add --detach $WT HEAD >/dev/null 2>&1 || { echo "worktree failed"; exit 2; }
@@ -12,7 +12,7 @@ RUN=$(cat $SRC/run.txt | head -1)
 cp $SRC/zz_seed_demo_test.go $WT/$WHERE/ || exit 2
 cd $WT/luahelper-lsp
 clean_out=$(eval "$RUN" 2>&1); clean_rc=$?
-git -C $WT apply $SRC/patch.diff || { echo "RESULT $NAME patch-does-not-apply"; exit 1; }
+(cd $WT && patch -p1 -s --no-backup-if-mismatch < $SRC/patch.diff >/dev/null 2>&1) || { echo "RESULT $NAME patch-does-not-apply"; exit 1; }
 go build ./... || { echo "RESULT $NAME does-not-build"; exit 1; }
 mut_out=$(eval "$RUN" 2>&1); mut_rc=$?
 rm -f $WT/$WHERE/zz_seed_demo_test.go
